@@ -83,6 +83,7 @@ func (e *Engine) verifyFunc(fn *ssa.Function, fs *FuncSpec) (c *vctx) {
 		c.frame = e.frameTargets(a, fs, env)
 	}
 	exitSt, results, exitReach := a.run(args, st, tTrue)
+	a.curBlock = nil
 	a.checkCallAnchors()
 	if exitSt == nil {
 		// function never returns normally: ensures are vacuous; say so
